@@ -174,6 +174,10 @@ def word_loop(r):
 
 def grammars(ctx):
     """-> list of (family, text bytes)"""
+    if ctx.get('replay'):
+        import json
+        rp = json.load(open(ctx['replay']))
+        return [('replay', rp['grammar'].encode('latin-1'))]
     r = ctx['rng']
     thorough = ctx['tier'] == 'thorough'
     out = []
